@@ -47,10 +47,10 @@ func (c *Ctx) regexpVar(sp, name string) *regexp.Regexp {
 // ---------- LEX ----------
 
 type lexReg struct {
-	call  *ast.CallExpr // the rule constructor call: str(..), keyword(..), primOper(..), regex(..), or addOper
-	ctor  string
-	kind  string // constant token kind, if any
-	pat   string // regex pattern
+	call   *ast.CallExpr // the rule constructor call: str(..), keyword(..), primOper(..), regex(..), or addOper
+	ctor   string
+	kind   string // constant token kind, if any
+	pat    string // regex pattern
 	inLoop *ast.RangeStmt
 }
 
